@@ -38,9 +38,10 @@ CLAIMED = {
 
 CLAIMED.update({
     "C15": dict(
-        text="Proof on the real sys_path / dynamic_import / GriffeLoader.load / _load_module_path / _inspect_module / _load_module / _load_submodule bodies: "
+        text="Proof on the real sys_path / dynamic_import / GriffeLoader.load / _load_module_path / _inspect_module / _load_module / _load_submodule / resolve_module_aliases bodies: "
              "sys.path identity restored on every exit (any exception class, body rebinding sys.path), only ImportError escapes dynamic_import, every "
-             "inspection / dynamic-import call site is dead when inspection is disallowed, compiled modules rejected; plus a syntactic lemma closing the "
+             "inspection / dynamic-import call site is dead when inspection is disallowed, compiled modules rejected, resolve_module_aliases (one arbitrary member, "
+             "symbolic implicit / external flags, load by its contract) reaches no execution site; plus a syntactic lemma closing the "
              "execution frontier (functions containing import/exec/subprocess primitives and their callers). The code run by an import may rebind sys.path (and then "
              "succeed, raise or exit); sys.modules is an arbitrary table. Real loads with markers (side-effecting, compiled, source-less, missing modules; modules "
              "that raise / exit / tamper with sys.path under inspection) are a bounded native tier.",
@@ -64,8 +65,9 @@ CLAIMED.update({
         text="Proof on the real Alias.resolve_target/_resolve_target (all-or-nothing: target untouched on failure, passed-through flag restored on every exit, "
              "only AliasResolutionError/CyclicAliasError escape, caller marked before recursing = variant), Alias.target, Alias.final_target (each iteration inserts "
              "a fresh key that is the visited alias's path => terminates on finite heaps), Alias.kind/has_docstring never raise, one generic member iteration of "
-             "resolve_module_aliases. Whole-graph clauses (no escape from load/resolve_aliases, fixpoint) are a bounded search over generated import graphs.",
-        note="Modular recursion (callee contract assumed at the recursive call); finite heap; exception constructors by contract. Alias.aliases is the real forwarding property (can raise the alias errors). Fixed: C06-G2/G3/G4, C06-P1; known: C06-G1, C06-G5.",
+             "resolve_module_aliases. Whole-graph clauses (no escape from load/resolve_aliases, fixpoint of the resolve_aliases loop, which is not under a loop contract) are a "
+             "bounded search over generated import graphs in one package and over sets of packages loaded in several orders with external resolution.",
+        note="Modular recursion (callee contract assumed at the recursive call); finite heap; exception constructors by contract. Alias.aliases is the real forwarding property (can raise the alias errors). Fixed: C06-G2/G3/G4, C06-P1, C06-P2 (resolve_aliases stopped before a fixpoint after loading a package); known: C06-G1, C06-G5.",
         ref="DESIGN.md 3/C06"),
 })
 
@@ -73,7 +75,7 @@ CLAIMED.update({
     "C07": dict(
         text="Proof on the real Class.resolved_bases (one arbitrary base: found => appended in order, through an alias when it is one; not loaded / unresolvable => skipped and "
              "only skipped, no iteration ends the loop), Class._mro (cycle reported as ValueError before any recursion; `seen` extended by the own path before recursing = termination "
-             "variant; result [self, *merge(base linearizations, bases)]) and ObjectAliasMixin.all_members (own members never shadowed). "
+             "variant; result [self, *merge(base linearizations, bases)]) and ObjectAliasMixin.all_members (own members never shadowed), Class.parameters (the constructor presented is the __init__ all_members presents). "
              "Object.inherited_members (nearest definition in MRO order wins, inherited aliases under the subclass path, uncomputable MRO => {}) is verified "
              "symbolically for bounded sizes; c3linear_merge == C3 and whole-hierarchy agreement with CPython are a bounded exhaustive tier (type() as oracle).",
         note="At most 3 resolved bases (the property's bound); c3linear_merge taken by contract inside _mro; bounded parts are labelled and never counted as proved.",
@@ -120,7 +122,8 @@ CLAIMED.update({
              "search continues; a returned package is always justified by the file system; only ModuleNotFoundError escapes), and the single-search-path table "
              "(module file not hidden by a bare directory); ModuleFinder.iter_submodules for one generic module file from an arbitrary set of already-claimed "
              "sub-package directories (skip rule, own __init__ silent, sub-package __init__ claims its directory, name parts, the consulted skip set is a "
-             "snapshot the pass does not change). Listing-order independence and equality with the import system are a bounded native tier.",
+             "snapshot the pass does not change). Listing-order independence, equality with the import system and requests by path (_top_module_name is not under "
+             "contract) are a bounded native tier.",
         note="Listings are consumed through membership only (a change that depends on order becomes undecided); module names without dots. Known finding C14-F1 "
              "(namespace packages with clashing portions).",
         ref="DESIGN.md 3/C14"),
@@ -158,7 +161,8 @@ CLAIMED.update({
              "added as aliases to the exposed object under the importing module, statement removed iff expanded), expand_exports for one arbitrary __all__ entry "
              "(string kept; a reference to another module's __all__ replaced in place by that module's exports as they are after its own expansion, skipped when it is not "
              "loaded; seen gains the module's path), every forwarding property of Alias (list read from the "
-             "real class body) presents the final target's value or raises only the alias errors, Alias.members rebased under the alias. "
+             "real class body) presents the final target's value or raises only the alias errors, Alias.members rebased under the alias; two wildcard statements in one "
+             "module leave temporary members that collide only if they target the same module (visit_importfrom; str.replace uninterpreted with three listed string facts). "
              "Equality of the composition with CPython's importer is a bounded native tier.",
         note="External package loading assumed done; set_member/del_member/get_member by contract (C16). Fixed: C05-F1 (expand_exports early return).",
         ref="DESIGN.md 3/C05"),
@@ -167,7 +171,7 @@ CLAIMED.update({
 CLAIMED.update({
     "C08": dict(
         text="Shape-level inverse-pair proof on the real as_dict methods and the real json_decoder / _load_* functions: for Function (parameters, returns, decorators), "
-             "Attribute, Alias, Class (bases, decorators, members with restored parent links) and Module (path / built-in / namespace file paths), objects built by the real "
+             "Attribute, Alias (unresolved, and resolved to an object with a path of its own: the dump keeps the written target), Class (bases, decorators, members with restored parent links) and Module (path / built-in / namespace file paths), objects built by the real "
              "constructors with symbolic fields are dumped (minimal form), decoded bottom-up by the real json_decoder and shown to reload without error, with every listed "
              "field equal and an identical key set on re-serialisation; the loader gives every name of every expression it stores (decorators, bases, parameter "
              "annotations and defaults, returns, attribute values and annotations) its scope back. Whole trees, every expression class, both agents, the full form and "
